@@ -42,7 +42,14 @@ class Shade(enum.Enum):
     LIGHT = 2
 
 
-SCALAR_KINDS = ["int", "str", "float", "bool", "opt-int", "enum", "opt-enum", "datetime", "list-int", "list-str", "private"]
+class Level(int, enum.Enum):
+    """an enum with a mix-in type"""
+
+    LOW = 1
+    HIGH = 2
+
+
+SCALAR_KINDS = ["int", "str", "float", "float-inf", "mixin-enum", "bool", "opt-int", "enum", "opt-enum", "datetime", "list-int", "list-str", "private"]
 REF_KINDS = ["ref", "opt-ref", "list-ref", "set-ref"]
 NAMES = ["Alpha", "Beta", "Gamma"]
 
@@ -53,6 +60,7 @@ def build_model(spec):
     modname = "verif_c06_model_%d_%d" % (os.getpid(), _counter[0])
     mod = types.ModuleType(modname)
     mod.Shade = Shade
+    mod.Level = Level
     sys.modules[modname] = mod
     classes = []
     for i, (base, flds) in enumerate(spec):
@@ -65,6 +73,10 @@ def build_model(spec):
                 fs.append((fname, str, field(default="s")))
             elif kind == "float":
                 fs.append((fname, float, field(default=1.5)))
+            elif kind == "float-inf":
+                fs.append((fname, float, field(default=float("inf"))))  # a default whose repr is not a Python literal
+            elif kind == "mixin-enum":
+                fs.append((fname, Level, field(default=Level.LOW)))
             elif kind == "bool":
                 fs.append((fname, bool, field(default=True)))
             elif kind == "opt-int":
@@ -458,6 +470,40 @@ def _real_model_ok(ctx, c1, f1, c2, f2):
     return err is None
 
 
+FIXED_SPEC = [(-1, [("f0_0", "list-ref", 1), ("f0_1", "list-ref", 2)]), (-1, [("f1_0", "list-ref", 0), ("f1_1", "enum", None)]), (0, [("f2_0", "set-ref", 1), ("f2_1", "list-ref", 2)])]
+
+
+def generate_fixed_model_source():
+    """the generated text for a fixed model with several collections (run in a fresh interpreter by the case below)"""
+    _, classes = build_model(FIXED_SPEC)
+    return ormgen.generate_source(classes)
+
+
+def other_interpreter_case():
+    """the string-hash seed of the interpreter is part of the environment: the generated text must not depend on it"""
+
+    def h(ctx):
+        import hashlib
+        import subprocess
+
+        seeds = [0, 1, 2, 3]
+        a, b = seeds[ctx.choice("seed_a", 2)], seeds[2 + ctx.choice("seed_b", 2)]
+        texts = []
+        for sd in (a, b):
+            env = dict(os.environ, PYTHONHASHSEED=str(sd))
+            r = subprocess.run([sys.executable, "-c", "import re\nfrom harness import c06_ormatic as C\nprint(re.sub(r'verif_c06_model_[0-9_]+', 'MODEL', C.generate_fixed_model_source()))"],
+                               capture_output=True, text=True, env=env, cwd=os.path.dirname(os.path.dirname(os.path.abspath(__file__))), timeout=300)
+            if r.returncode != 0:
+                ctx.observe("generation in a fresh interpreter failed: %s" % r.stderr[-300:])
+                return {"generates-in-a-fresh-interpreter": False}
+            texts.append(r.stdout)
+        ctx.observe(a, b, hashlib.sha1(texts[0].encode()).hexdigest()[:8], hashlib.sha1(texts[1].encode()).hexdigest()[:8])
+        ctx.note("nonempty", 1)
+        return {"generates-in-a-fresh-interpreter": True, "same-text-whatever-the-hash-seed-of-the-interpreter": texts[0] == texts[1]}
+
+    return h
+
+
 def cases(tier, seed):
     cs = []
     S = ["int", "opt-int", "enum", "list-str", "private"] if tier == "quick" else SCALAR_KINDS
@@ -475,6 +521,7 @@ def cases(tier, seed):
             for k in R:
                 nm = "model K=3|bases=%d,%d|f0:%s" % (base1 - 1, base2 - 1, k)
                 cs.append(Case(nm, spec_case(3, [k], [], {"base1": base1, "base2": base2}), key=nm, validate=0, timeout=2400, max_paths=50000))
+    cs.append(Case("generation in fresh interpreters with different hash seeds", other_interpreter_case(), key="other-interpreter", validate=0, timeout=900))
     L = 4 if tier == "quick" else 6
     cs.append(Case("names|association-table-name|len<=%d" % L, name_collision_case("association-table-name", L), key="names|association-table-name", validate=0, timeout=900, max_paths=200000, meta=dict(solver_finds_candidates_real_code_confirms=True)))
     cs.append(Case("names|association-columns|len<=%d" % L, name_collision_case("association-columns", L), key="names|association-columns", validate=0, timeout=900, max_paths=200000, meta=dict(solver_finds_candidates_real_code_confirms=True)))
@@ -490,7 +537,7 @@ def describe(tier):
         "per class up to two fields with kinds from {int,str,float,bool,Optional[int],Enum,Optional[Enum],datetime,List[int],List[str],_private, reference, Optional "
         "reference, List/Set of a mapped class} with every reference target (incl. self and mutual references, two collections of one target), classes handed to "
         "ORMatic in every order; per specification the real pipeline runs end to end and the mapper is compared with an independent reading of the dataclasses; "
-        "generating twice must give identical text. (a) the generator's own name computation (the assignments of create_one_to_many_relationship that the association-table name and its two column names depend on, "
+        "generating twice must give identical text, also in fresh interpreters with different string-hash seeds (PYTHONHASHSEED as a nondeterministic part of the environment, 4 seeds). (a) the generator's own name computation (the assignments of create_one_to_many_relationship that the association-table name and its two column names depend on, "
         "with their if-branches, slices, concatenations, .lower(), len() and module constants) is interpreted from wrapped_table.py's current AST on identifiers of bounded symbolic characters, also with class names that start with a concrete prefix of 40 / 56 characters; "
         "the solver looks for colliding association-table / column names and every hit is confirmed on the real generator. non-trivial = every path generates a module",
         bounds=dict(classes="<= 2 quick / <= 3 thorough", fields_per_class="<= 2", identifier_length="<= 3 quick / <= 4 thorough over the alphabet {A,B,D,O,a,b,d,o,_} (contains the letters of the 'dao_' delimiter)"),
